@@ -143,6 +143,31 @@ def oracle_group(rep, rules, grp, out, gi):
                          {'group': gi, 'words': words, 'form': rec['form'], 'pos': rec['pos'],
                           'lemmatizer': rec['which'], 'kind': kind},
                          {'proposed': rec['proposed'], 'expected_union': union, 'got': got})
+    # --- the same with the default normalizer (documented two-pass procedure, computed from the word list)
+    def nrm(x):
+        return x.lower()
+
+    def one_pass(proposed, tr):
+        hit = []
+        for p, fs in proposed:
+            fs2 = {tr(f) for f in fs}
+            for i, (wp, lemma, others) in enumerate(words):
+                if p is not None and wp != p:
+                    continue
+                if any(f in fs2 or (nrm(f) != f and nrm(f) in fs2) for f in [lemma] + list(others)):
+                    if i not in hit:
+                        hit.append(i)
+        return hit
+    for rec in out.get('search_norm', []):
+        first = one_pass(rec['proposed'], lambda f: f)
+        exp = first if first else one_pass(rec['proposed'], nrm)
+        got = rec['got']
+        if len(set(got)) != len(got) or set(got) != {'mlex-e%d' % i for i in exp}:
+            rep.fail('Wordnet with a Morphy lemmatizer and the default normalizer does not follow the documented procedure '
+                     '(exact pass over every proposed (pos, forms) pair; only if nothing is found, one normalised pass, each '
+                     'proposal under its own part of speech)',
+                     {'group': gi, 'words': words, 'form': rec['form'], 'pos': rec['pos'], 'lemmatizer': rec['which']},
+                     {'proposed': rec['proposed'], 'expected': ['mlex-e%d' % i for i in exp], 'got': got})
     return nontrivial
 
 
@@ -159,11 +184,15 @@ def run(rep, tier, build, replay=None):
                                 ['v', 'knife', []], ['a', 'good', ['better', 'best']],
                                 ['a', 'well', ['better', 'best']], ['s', 'large', []],
                                 ['n', 'axe', []], ['n', 'ax', []], ['n', 'axis', ['axes']],
-                                ['n', 's', []], ['v', 'be', ['is', 'was']]],
+                                ['n', 's', []], ['v', 'be', ['is', 'was']],
+                                ['a', 'Polish', []], ['v', 'polish', []], ['n', 'example', []], ['n', 'Reading', []], ['v', 'read', []],
+                                ['v', 'saw', []], ['v', 'see', ['saw', 'seen']], ['v', 'lay', []], ['v', 'lie', ['lay', 'lain']],
+                                ['n', 'data', []], ['n', 'datum', ['data']]],
                       'queries': [[f, p] for f in ['wolves', 'knives', 'better', 'axes', 'larger', 's',
-                                                   'ss', 'es', 'was', 'wolf', 'men', 'xes']
+                                                   'ss', 'es', 'was', 'wolf', 'men', 'xes', 'saw', 'lay', 'data', 'seen']
                                   for p in QPOS],
-                      'search_queries': [[f, p] for f in ['wolves', 'knives', 'better', 'axes', 'larger']
+                      'search_queries': [[f, p] for f in ['wolves', 'knives', 'better', 'axes', 'larger', 'Polished', 'Exampled',
+                                                          'Reading', 'polished', 'saw', 'Saws']
                                          for p in [None, 'n', 'v', 'a', 's']]})
     if replay:
         import json
